@@ -575,6 +575,43 @@ fn record(a: &Args) {
     println!("{}", json!({"texts": texts.len(), "evals": evals, "cells": cells_n, "loads": loads, "samples": samples}));
 }
 
+/// One cell of a Trace_Schema record for an arbitrary (text, style, tag): the distinct results of the
+/// resolution entry points that do not need a document (used by C07 for the scalars of its pool).
+pub fn cell_for(text: &str, style: ScalarStyle, sname: &str, tag: Option<Tag>) -> Value {
+    let class = match &tag {
+        None => 0,
+        Some(t) if t.handle == CORE => match t.suffix.as_str() {
+            "int" => 1,
+            "float" => 2,
+            "bool" => 3,
+            "null" => 4,
+            "str" => 5,
+            _ => 6,
+        },
+        Some(_) => 6,
+    };
+    let shown = tag.as_ref().map(|t| format!("{}{}", t.handle, t.suffix)).unwrap_or_default();
+    let cfg = TagCfg { class, name: "", tag };
+    let r = std::panic::catch_unwind(std::panic::AssertUnwindSafe(|| {
+        let mut b = vec![];
+        resolve_all(text, style, sname, &cfg, false, &mut b);
+        b
+    }));
+    let buf = match r {
+        Ok(b) => b,
+        Err(p) => vec![("panic", Out::Other(format!("panic: {}", panic_msg(p))))],
+    };
+    let mut rs: Vec<Out> = vec![];
+    for (_, o) in &buf {
+        if !rs.contains(o) {
+            rs.push(o.clone());
+        }
+    }
+    let rsj: Vec<Value> = rs.iter().map(|o| o.json(text)).collect();
+    let apis: Vec<&str> = if rs.len() > 1 { buf.iter().map(|x| x.0).collect() } else { vec![] };
+    json!({"style": sname, "class": CLASSES[class], "tag": shown, "n": buf.len(), "rs": rsj, "apis": apis})
+}
+
 /// One text from the command line (used by `bin/check C08 --replay` and for debugging).
 fn show(a: &Args) {
     let tags = tag_cfgs();
